@@ -60,11 +60,24 @@ def keysDistinct (fields : List JVal) : List JVal → Bool
      | some k => !skippedKey k && !hasKey fields k rest
      | none => false) && keysDistinct fields rest
 
+/-- a key field is a plain name, not one of the directive keys (which the payload drops) -/
+def fieldOk : JVal → Bool
+  | .str s => !isDirective s
+  | _ => false
+
+/-- the key fields of a member hold scalars (so the key does not depend on nested directives) -/
+def keyValsScalar (fields : List JVal) : JVal → Bool
+  | .obj mkvs => fields.all fun f => match f with
+    | .str s => isScalar ((lookup s mkvs).getD .null)
+    | _ => true
+  | _ => true
+
 def keyDirOk (d : Dirs) (k : String) (tv : JVal) : Bool :=
   match fieldsFor k d.asMap with
   | some fields =>
     (match tv with
-     | .arr tms => allObj tms && keysDistinct fields tms
+     | .arr tms => (allObj tms && keysDistinct fields tms) &&
+        (fields.all fieldOk && tms.all (keyValsScalar fields))
      | _ => false)
   | none =>
     if d.asSet.contains k then (match tv with | .arr xs => xs.all isScalar | _ => true) else true
@@ -88,8 +101,48 @@ def wfL : List JVal → Bool
   | x :: xs => wfB x && wfL xs
 end
 
+/-! the last-applied tree has the target's shape along the target's paths (what koreo itself wrote
+    always has; a tampered annotation may not) -/
+mutual
+def laOkB (t la : JVal) : Bool :=
+  match t with
+  | .obj tkvs => laMapOk la && laOkO (specDirs tkvs) (laObjKvs la) tkvs
+  | .arr txs => laArrOk la && laOkL txs (laArrItems la)
+  | _ => true
+termination_by structural t
+def laOkO (d : Dirs) (lakvs : List (String × JVal)) (tkvs : List (String × JVal)) : Bool :=
+  match tkvs with
+  | [] => true
+  | (k, tv) :: rest =>
+    (if skippedKey k then true
+     else match fieldsFor k d.asMap with
+      | some fields =>
+        (match tv with
+         | .arr tms => laOkK fields (laMembers (laVal lakvs k)) tms
+         | _ => true)
+      | none => laOkB tv (laVal lakvs k)) && laOkO d lakvs rest
+termination_by structural tkvs
+def laOkL (txs items : List JVal) : Bool :=
+  match txs with
+  | [] => true
+  | t :: ts => laOkB t (items.head?.getD .null) && laOkL ts items.tail
+termination_by structural txs
+def laOkK (fields lams tms : List JVal) : Bool :=
+  match tms with
+  | [] => true
+  | tm :: rest =>
+    (match tm with
+     | .obj mkvs =>
+       match objKey fields mkvs with
+       | some key => laOkB tm (laMember fields key lams)
+       | none => true
+     | _ => true) && laOkK fields lams rest
+termination_by structural tms
+end
+
 def NoNulls (t : JVal) : Prop := noNullsB t = true
 def NoDupKeys (t : JVal) : Prop := noDupB t = true
 def DirectivesWF (t : JVal) : Prop := wfB t = true
+def LaShaped (t la : JVal) : Prop := laOkB t la = true
 
 end Koreo.Compare
